@@ -41,6 +41,28 @@ func ztpString(rng *rand.Rand, v6 bool) string {
 	return s
 }
 
+// ztpSystematic: every vendor prefix with its separator and 0 ... 5 further fields (each case table reads its fields by
+// position: one field short of what it reads is where an index goes wrong), fields empty and not
+func ztpSystematic() []string {
+	var out []string
+	for _, pr := range [][2]string{{"Arista", ";"}, {"ZPESystems", ":"}, {"Juniper", "-"}, {"Juniper", ":"}, {"1271", "-"}, {"Cisco", ";"}, {"NVOS", "##"},
+		{"Ciena", "-"}, {"Mellanox", ";"}} {
+		for n := 0; n <= 5; n++ {
+			for _, empty := range []bool{false, true} {
+				s := pr[0]
+				for k := 0; k < n; k++ {
+					s += pr[1]
+					if !empty {
+						s += []string{"DCS-7050S-64", "01.23", "JPE12221671", "x", "y"}[k]
+					}
+				}
+				out = append(out, s)
+			}
+		}
+	}
+	return out
+}
+
 func ztpOut(rec map[string]any, name, model, serial string, err error, nilData bool) {
 	if err != nil || nilData {
 		rec["st"] = "err"
@@ -68,6 +90,9 @@ func genZtp(o *Out, rng *rand.Rand, tier string) {
 		p.Options = dhcpv4.Options{}
 		if rng.Intn(8) != 0 {
 			p.Options[60] = []byte(ztpString(rng, false))
+		}
+		if sys := ztpSystematic(); i < len(sys) {
+			p.Options[60] = []byte(sys[i])
 		}
 		if rng.Intn(2) == 0 {
 			p.Options[12] = []byte([]string{"host1", "", "h\x00\x00", "\x00"}[rng.Intn(4)])
